@@ -51,11 +51,11 @@ func (c *Config) VerifyConfig(schema base.LogSchema) error {
 	if len(c.Pattern) == 0 {
 		return fmt.Errorf(".pattern is unspecified")
 	}
-	if _, err := splitPattern(c.Pattern); err != nil {
-		return fmt.Errorf(".pattern is invalid: %w", err)
-	}
 	if c.MaxLength <= 0 {
 		return fmt.Errorf(".maxLength must larger than zero: %d", c.MaxLength)
+	}
+	if _, err := newStringExtractorSimple(c.getPosition(), c.Pattern, c.MaxLength); err != nil {
+		return fmt.Errorf(".pattern is invalid: %w", err)
 	}
 	if len(c.DestKey) == 0 {
 		return fmt.Errorf(".destKey is unspecified")
